@@ -399,6 +399,23 @@ Definition spec_c04 (i : sinput) (o : sobs) : list val :=
   | _, _, _, _, _ => []       (* not a well-formed-validators case: no claim *)
   end.
 
+(* A request whose conditional headers are NOT all well-formed (a tag list the generator did not render
+   from an AST and the recogniser does not accept; a date the oracle does not parse): which of 400 / 412 /
+   304 / go-on such a request gets is fixed by no property (C04 speaks of well-formed validators, C13 only
+   of the status set and of panics), so differences between model and implementation on these cases are
+   drift, not a broken correspondence. *)
+Definition conds_malformed (i : sinput) : bool :=
+  let r := i_req i in
+  match hint_tags 2 i (is_some (r_if_match r)), hint_tags 3 i (is_some (r_inm r)), hint_date i (r_ims r), hint_date i (r_ius r) with
+  | Some _, Some _, Some _, Some _ => false
+  | _, _, _, _ => true
+  end.
+Definition as_malformed_drift (f : val) : val :=
+  match f with
+  | VL [VB k; VB field; a; b] => if beq_bytes k K_DIVERGE then VL [VB k; VB (bs "malformed-validators:" ++ field); a; b] else f
+  | _ => f
+  end.
+
 (* ---- C05: If-Range ---- *)
 Definition only_range_ifrange (r : request) : bool :=
   match r_if_match r, r_inm r, r_ims r, r_ius r with
